@@ -12,6 +12,7 @@ import XrsVerif.Proofs.ILViewshedDel
 import XrsVerif.Proofs.ILViewshedLift
 import XrsVerif.Proofs.ILViewshedFixOrder
 import XrsVerif.Proofs.ILViewshedDelRefines
+import XrsVerif.Proofs.ILViewshedDelOrder
 import Mathlib.Tactic.Positivity
 /-
   C05 -- viewshed marks a cell visible exactly when the line-of-sight model says so.
@@ -957,9 +958,8 @@ theorem generated_insert_is_model_insert (s : State (NV α)) (fuel n m : Nat) (h
     well linked over the old rows without `y`, `ret0` the root row, `ret1 = y`, NIL row and colour sanity kept.
     `rbDelFix` is a sequence of rotations and recolourings (`Rebal`, Proofs/ViewshedFix.lean), so whatever `Rebal`
     preserves (node list, order, no overestimate, exactness of the stored maxima) is preserved from `t1`.
-    PARTIAL in one respect: that the pass form `delPassT` (with `eqv` for `==`) is the hand model's one-pass recursion
-    `del` / `delCore` over a linear order -- a statement about two model-level functions, no program involved -- is not
-    proved; `delete_preserves_of_no_tie` etc. are about `delCore`. -/
+    That the pass form is the hand model's `delCore` over a linear order is `ILVs.delPassT_eq_delCore`; the statement
+    in terms of the hand model is `generated_delete_is_model_delete` below. -/
 theorem generated_delete_is_pass_form (s : State F) (fuel n : Nat) (hv : VS s n) (hrun : s.ctl = .run) (sh : Sh)
     (hL : Linked (s.ia "tree_nodes") n (-1) sh) (hN : sh.idxs.Nodup) (hroot : s.ienv "root" = sh.ptr)
     (hnil : nAt (s.ia "tree_nodes") (n - 1) 0 = 1) (hcol : ∀ j ∈ sh.idxs, ColV (nAt (s.ia "tree_nodes") j 0))
@@ -990,6 +990,59 @@ theorem generated_delete_is_pass_form (s : State F) (fuel n : Nat) (hv : VS s n)
     · exact rbDelFix_rebal S _ t1
     · exact Rebal.refl t1
   exact ⟨p3, c1, c2, sh', c3, c4, c5, c6, hreb, c7, c8, c9, c10, c11⟩
+
+/-- **the generated `_delete_from_tree` is the model's complete deletion.**  Run at `NV α` on arrays that hold the
+    image of a tree `t0` (more than the one node to delete; NIL row black and holding the sentinel, colour cells sane)
+    with `key = k` found in the tree, the program returns with arrays that hold the image of `t1`, where
+    `rbDelete smallestK k t0 = some t1` (Model/ViewshedFix.lean): the hand model's `delCore` -- splice or successor copy
+    with the code's repairs of the stored maxima (loops L1, L2, recomputations F1, C), ties included -- followed, when a
+    black node was spliced out and its child is not NIL, by `_rb_delete_fixup` (`rbDelFix`); well linked over the old
+    rows without the freed one, which is returned in `ret1`; `ret0` the root row; NIL row and colour sanity kept.
+    Composed with the model theorems: `t1` is `Rebal`-related to `delCore`'s result, so
+      * the keys stay strictly ordered and exactly the node with key `k` leaves (`delete_preserves_partial`),
+      * if the stored maxima were exact, no two nodes tie in their minimum gradient and only nearer nodes carry the
+        sentinel, the maxima are exact again and `Rel` holds with the cell removed (`delete_preserves_of_no_tie`);
+    with ties "no overestimate" can be lost -- that is a property of the code (`delete_can_overestimate`), and the
+    program is proved to compute exactly that function. -/
+theorem generated_delete_is_model_delete (s : State (NV α)) (fuel n : Nat) (hv : VS s n) (hrun : s.ctl = .run) (sh : Sh)
+    (hL : Linked (s.ia "tree_nodes") n (-1) sh) (hN : sh.idxs.Nodup) (hroot : s.ienv "root" = sh.ptr)
+    (hnil : nAt (s.ia "tree_nodes") (n - 1) 0 = 1) (hcol : ∀ j ∈ sh.idxs, ColV (nAt (s.ia "tree_nodes") j 0))
+    (hS : vAt (s.fa "tree_vals") (n - 1) 7 = smallest) (hf : sh.height + 2 ≤ fuel)
+    (t0 : Viewshed.Tree α) (k : α) (habs : absT (s.fa "tree_vals") (s.ia "tree_nodes") sh = mapT emb t0)
+    (hkey : s.fenv "key" = some k) (l : Sh) (z : Nat) (r : Sh) (ctx : ILVs.Ctx)
+    (hfind : findZ (s.fa "tree_vals") ⟨s.fenv "key"⟩ sh [] = some (l, z, r, ctx))
+    (hbig : ¬ (l = .nil ∧ r = .nil ∧ ctx = [])) :
+    let q := Gen.IL.vsDelete.run s fuel
+    q.ctl = .ret ∧ VS q n ∧ ∃ (sh' : Sh) (c t1 : Viewshed.Tree α),
+      delCore smallestK k t0 = some c ∧ rbDelete smallestK k t0 = some t1 ∧ Rebal smallestK c t1 ∧
+      Linked (q.ia "tree_nodes") n (-1) sh' ∧ sh'.idxs.Nodup ∧ (spliceIdx l z r :: sh'.idxs).Perm sh.idxs ∧
+      absT (q.fa "tree_vals") (q.ia "tree_nodes") sh' = mapT emb t1 ∧
+      q.ienv "ret0" = sh'.ptr ∧ q.ienv "ret1" = spliceIdx l z r ∧ vAt (q.fa "tree_vals") (n - 1) 7 = smallest ∧
+      nAt (q.ia "tree_nodes") (n - 1) 0 = 1 ∧ (∀ j ∈ sh'.idxs, ColV (nAt (q.ia "tree_nodes") j 0)) ∧
+      (∀ (d : Node α) (st : List (Node α)), Rel smallestK d t0 st → (∃ m ∈ st, m.key = k) → d.key ≠ k →
+        BST t1 ∧ ∀ m, m ∈ t1.toList ↔ (m = d ∨ m ∈ st.filter fun m => !(eqv m.key k))) ∧
+      (∀ (d : Node α) (st : List (Node α)), Rel smallestK d t0 st → Exact smallestK t0 → (∃ m ∈ st, m.key = k) →
+        d.key ≠ k → (∀ a ∈ t0.toList, ∀ b ∈ t0.toList, minv a = minv b → a.key = b.key) →
+        (∀ m ∈ t0.toList, minv m = smallestK → m.key < k) →
+        Exact smallestK t1 ∧ Rel smallestK d t1 (st.filter fun m => !(eqv m.key k))) := by
+  intro q
+  obtain ⟨c1, c2, sh', t1, c3, c4, c5, c6, c7, c8, c9, c10, c11, c12⟩ :=
+    vsDelete_model s fuel n hv hrun sh hL hN hroot l z r ctx hfind hbig hnil hcol hf smallestK
+      (by rw [hS, smallest_emb]) t0 k habs hkey
+  obtain ⟨c, hc, hreb⟩ := rbDelete_rebal smallestK k t0 t1 c3
+  obtain ⟨_, _, _, _, _, p3, _⟩ := splicePos_spec l z r ctx
+  rw [p3] at c6 c9
+  refine ⟨c1, c2, sh', c, t1, hc, c3, hreb, c4, c5, c6, c7, c8, c9, by rw [c10, smallest_emb], c11, c12, ?_, ?_⟩
+  · intro d st hr hk hd
+    obtain ⟨c', hc', h⟩ := delete_preserves_partial k hr hk hd
+    rw [hc] at hc'
+    cases hc'
+    exact h t1 hreb
+  · intro d st hr he hk hd hnt hsent
+    obtain ⟨c', hc', h⟩ := delete_preserves_of_no_tie k hr he hk hd hnt hsent
+    rw [hc] at hc'
+    cases hc'
+    exact h t1 hreb
 
 /-! non-vacuity: a concrete state holding the three-node tree of the example after `query_decides` (rows 0 = the root
     with key 2, 1 = key 1, 2 = key 3, 3 = NIL); the generated query at key 3 returns 2, the gradient of the node
@@ -1114,6 +1167,33 @@ example [Trig ℚ] :
       simp [findZ, vAt, exStateDel, exVals6, fv_lt]
       norm_num) (by simp)
   exact ⟨h1, h2, by simp [splicePos, nAt, exStateDel, exNodes6], by simp [splicePos, Sh.ptr]⟩
+
+def exTree6 : Viewshed.Tree ℚ :=
+  .node (.node .nil ⟨1, 2, 2, 2, 0, 1, 2⟩ 2 false .nil) ⟨2, 1, 1, 1, 0, 1, 2⟩ 3 false
+    (.node .nil ⟨3, 0, 0, 0, 0, 1, 2⟩ 3 false (.node .nil ⟨4, 3, 3, 3, 0, 1, 2⟩ 3 true .nil))
+
+/-- non-vacuity of `generated_delete_is_model_delete`: the arrays of `exStateDel` hold `exTree6`; deleting the key 3
+    splices out the black node, its red child takes its place and is blackened by the fix-up -/
+example [Trig ℚ] :
+    (Gen.IL.vsDelete.run exStateDel 5).ctl = .ret ∧
+      ∃ (sh' : Sh) (t1 : Viewshed.Tree ℚ), rbDelete smallestK 3 exTree6 = some t1 ∧
+        absT ((Gen.IL.vsDelete.run exStateDel 5).fa "tree_vals") ((Gen.IL.vsDelete.run exStateDel 5).ia "tree_nodes") sh' =
+          mapT emb t1 ∧ (Gen.IL.vsDelete.run exStateDel 5).ienv "ret0" = sh'.ptr := by
+  obtain ⟨h1, _, sh', c, t1, _, h2, _, _, _, _, h3, h4, _⟩ := generated_delete_is_model_delete exStateDel 5 6
+    ⟨rfl, rfl, rfl, rfl, by decide⟩ rfl (.node (.node .nil 1 .nil) 0 (.node .nil 2 (.node .nil 3 .nil)))
+    (by simp [Linked, nAt, exStateDel, exNodes6, Sh.ptr]) (by decide) rfl (by simp [nAt, exStateDel, exNodes6])
+    (by simp [Sh.idxs, ColV, nAt, exStateDel, exNodes6]) (by simp [vAt, exStateDel, exVals6, smallest]) (by decide)
+    exTree6 3 (by simp [absT, nodeAt, vAt, nAt, mapT, mapN, emb, exStateDel, exVals6, exNodes6, exTree6]) rfl
+    .nil 2 (.node .nil 3 .nil) [.R (.node .nil 1 .nil) 0]
+    (by
+      simp [findZ, vAt, exStateDel, exVals6, fv_lt]
+      norm_num) (by simp)
+  exact ⟨h1, sh', t1, h2, h3, h4⟩
+
+example : rbDelete (smallestK : ℚ) 3 exTree6 =
+    some (.node (.node .nil ⟨1, 2, 2, 2, 0, 1, 2⟩ 2 false .nil) ⟨2, 1, 1, 1, 0, 1, 2⟩ 3 false
+      (.node .nil ⟨4, 3, 3, 3, 0, 1, 2⟩ 3 false .nil)) := by
+  decide
 
 example [Trig ℚ] :
     absT ((Gen.IL.vsLeftRotate.run exState 0).fa "tree_vals") ((Gen.IL.vsLeftRotate.run exState 0).ia "tree_nodes")
